@@ -131,3 +131,10 @@ Example C19_nonvacuous :
   e_txid hi = 777 /\ e_txid dr = 888 /\ te_nonce (e_tx dr) = 6 /\ te_nonce (e_tx hi) = 5 /\
   be_prevrandao (e_block hi) = Some 275001 /\ te_gas_limit (e_tx dr) = 1200000.
 Proof. vm_compute. repeat split. Qed.
+
+(* assumptions of the theorems above that had no report next to them *)
+Print Assumptions C19_fork_heights_pinned.
+Print Assumptions C19_sender.
+Print Assumptions C19_txid_reads.
+Print Assumptions C19_multi_nonce.
+Print Assumptions C19_parked_identity.
